@@ -29,3 +29,15 @@ package neuronjson
 //@   assert at "if i < len(mdb.ids) && mdb.ids[i] == bodyid {": (forall k int :: {mdb.ids[k]} 0 <= k && k < i ==> mdb.ids[k] < bodyid) && (forall k int :: {mdb.ids[k]} i <= k && k < len(mdb.ids) ==> mdb.ids[k] >= bodyid)
 //@   ensures (exists p int :: 0 <= p && p < len(old(mdb.ids)) && old(mdb.ids[p]) == bodyid) ==> len(mdb.ids) == len(old(mdb.ids)) && (forall k int :: 0 <= k && k < len(mdb.ids) ==> mdb.ids[k] == old(mdb.ids[k]))
 //@   ensures (forall p int :: 0 <= p && p < len(old(mdb.ids)) ==> old(mdb.ids[p]) != bodyid) ==> len(mdb.ids) == len(old(mdb.ids)) + 1
+
+// After a (re)load from the store - whose keys arrive in STRING order ("10" < "9") - the id list is in
+// numeric order again, which every sort.Search on it relies on.
+//@ spec func idsNonDecr(s []uint64) bool = forall a int, b int :: {s[a]} {s[b]} 0 <= a && a < b && b < len(s) ==> s[a] <= s[b]
+
+//@ func Data.loadMemDB
+//@   prop C16
+//@   requires d != nil && mdb != nil
+//@   safety_off
+//@   calls_havoc
+//@   modifies *
+//@   ensures result == nil ==> idsNonDecr(mdb.ids)
